@@ -159,6 +159,12 @@ def run_unit(unit_name, repo='/repo', rlimit=None, twins=True, extra_args=(), ta
     cmd += ['--rlimit', str(rlimit or DEFAULT_RLIMIT)]
     cmd += list(extra_args)
     res.verus_cmd = ' '.join(cmd)
+    xp = sorted({c['path'].split('/', 1)[1] for c in u.cuts if c['path'].startswith('@expanded/')})
+    if xp:
+        # the text was cut from rustc's macro expansion of /repo's current tree (vx/expand.py)
+        res.verus_cmd = ' && '.join('RUSTC_BOOTSTRAP=1 cargo rustc --offline %s --profile check -- -Zunpretty=expanded%s' % (
+            '--lib' if w == 'lib' else '--test verif_syncx', '' if w == 'lib' else ' && cargo check --offline --test verif_syncx')
+            for w in xp) + ' && ' + res.verus_cmd
     env = dict(os.environ)
     try:
         p = subprocess.run(cmd, capture_output=True, text=True, timeout=900, env=env, cwd=BUILD)
